@@ -78,7 +78,23 @@ def run(idx, rep, tier):
         rep.missing_anchor("loop body of lanczos_fact")
     else:
         writes = norm_written(body)
-        sub = [w for w in writes if "subdiag" in w[0]]
+        # positional linkage, independent of local names: slot 0 of Tridiagonal in lanczos -> its position in the
+        # unpacking of lanczos_fact's result -> the same position of the loop state unpacked in the body
+        tri0 = next((c for c in df.calls(lanczos.node) if nospace(c.func) == "Tridiagonal" and len(c.args) == 3), None)
+        pos = None
+        if tri0 is not None and isinstance(tri0.args[0], ast.Name):
+            for st in df.body_nodes(lanczos.node):
+                if isinstance(st, ast.Assign) and isinstance(st.targets[0], ast.Tuple) and isinstance(st.value, ast.Call) and nospace(st.value.func) == fact.short:
+                    names = [t.id if isinstance(t, ast.Name) else None for t in st.targets[0].elts]
+                    if tri0.args[0].id in names:
+                        pos = names.index(tri0.args[0].id)
+        off_name = None
+        if pos is not None and body.params:
+            for st in df.body_nodes(body.node):
+                if isinstance(st, ast.Assign) and isinstance(st.targets[0], ast.Tuple) and isinstance(st.value, ast.Name) and st.value.id == body.params[0] and pos < len(st.targets[0].elts):
+                    t = st.targets[0].elts[pos]
+                    off_name = t.id if isinstance(t, ast.Name) else None
+        sub = [w for w in writes if off_name is not None and w[0] == off_name]
         if sub:
             ok = all(w[1] for w in sub)
             rep.decide(ok, "nonneg-offdiagonal", "lanczos_fact:subdiag", f"off-diagonal entries written: {[ast.unparse(w[2].args[1])[:40] for w in sub]}" + ("" if ok else ": must be norms (non-negative)"),
@@ -125,15 +141,19 @@ def run(idx, rep, tier):
             for t, v in zip(st.targets[0].elts, st.value.elts):
                 if isinstance(v, ast.Subscript) and isinstance(t, ast.Name):
                     last = v.slice.elts[-1] if isinstance(v.slice, ast.Tuple) else v.slice
-                    if isinstance(last, ast.Slice) and last.upper is not None and last.lower is None and "iters" in nospace(last.upper):
+                    if isinstance(last, ast.Slice) and last.upper is not None and last.lower is None and not isinstance(last.upper, ast.Constant):
                         trims[t.id] = nospace(last.upper)
     if trims:
-        # T = Tridiagonal(off, diag, off): diag and Q cut to iters, off-diagonal to iters - 1
+        # T = Tridiagonal(off, diag, off): diag and Q cut to N, off-diagonal to N - 1, for one size variable N;
+        # Q is whatever array is wrapped in Dense
         tri = [c for c in df.calls(lanczos.node) if nospace(c.func) == "Tridiagonal"]
         off, dg = (nospace(tri[0].args[0]), nospace(tri[0].args[1])) if tri else (None, None)
-        ok = trims.get(dg) == "iters" and trims.get(off) == "iters-1" and trims.get("Q") == "iters"
-        rep.decide(ok, "trimming", "lanczos:trim", f"diagonal `{dg}` cut to {trims.get(dg)}, off-diagonal `{off}` to {trims.get(off)}, Q to {trims.get('Q')} columns" +
-                   ("" if ok else "; required iters, iters-1, iters"), detail="" if ok else "sizes", locs=[idx.loc(lanczos.module, lanczos.node)])
+        dense = [c for c in df.calls(lanczos.node) if (nospace(c.func) == "Dense" or nospace(c.func).endswith("vmap(Dense)")) and c.args]
+        qn = next((n for c in dense for n in df.names_in(c.args[0]) if n in trims), None)
+        size = trims.get(dg)
+        ok = size is not None and size.isidentifier() and trims.get(off) == f"{size}-1" and trims.get(qn) == size
+        rep.decide(ok, "trimming", "lanczos:trim", f"diagonal `{dg}` cut to {trims.get(dg)}, off-diagonal `{off}` to {trims.get(off)}, basis `{qn}` to {trims.get(qn)} columns" +
+                   ("" if ok else "; required N, N-1, N for one size N"), detail="" if ok else "sizes", locs=[idx.loc(lanczos.module, lanczos.node)])
     else:
         rep.undecided("trimming", "lanczos:trim", "trimming assignment not found")
     rep.floor("loop-cap", 2)
